@@ -1,17 +1,19 @@
 """Contract on python.assert_valid_covariance (the covariance validity gate) - C09.1.
 
-Acceptance region demanded by the property (deliberately the smallest defensible one):
-    symmetric up to allclose  and  lam_min(C) >= -P * n * u * norm2(C),  u = 2^-53, P = 64
-(the usual p(n)*u*||C|| backward-error scale of a symmetric eigen-solver).  Rejection is demanded only
-far outside: lam_min(C) < -1e-6 * norm2(C) with norm2(C) > 0 (needed by C14: negative noise is refused),
-or not symmetric.
+Acceptance region demanded by the property (deliberately the smallest defensible one), both clauses RELATIVE to the
+magnitude of the matrix ("valid up to rounding relative to their magnitude"):
+    max|C - C^T| <= P * n * u * max|C|   and   lam_min(C) >= -P * n * u * norm2(C),      u = 2^-53, P = 64
+(the usual p(n)*u*||C|| backward-error scale).  Rejection is demanded only far outside: lam_min(C) < -1e-6 * norm2(C) with
+norm2(C) > 0 (needed by C14: negative noise is refused); no property demands the refusal of an asymmetric matrix.
+Until defect D13 the symmetry clause was stated through the code's own test (np.allclose with numpy's absolute default
+tolerance), which made it vacuous and hid that the verdict depended on the units of the state.
 """
 from __future__ import annotations
 
 import z3
 
 from pvc.contract import Call, Contract
-from pvc.np_model import eig_axioms, is_sym_close, lam_min, norm2
+from pvc.np_model import asym, eig_axioms, entry_axioms, lam_min, max_abs, norm2
 from pvc.sym import Mat, SInt, SMat, Unsupported, to_int
 
 U = z3.RealVal(1) / z3.RealVal(2**53)
@@ -22,19 +24,23 @@ gate_ok = z3.Function("gate_ok", Mat, z3.BoolSort())  # caller-side abstraction:
 psd = z3.Function("psd_exact", Mat, z3.BoolSort())  # symmetric positive semidefinite in exact arithmetic
 
 
+SYM_FAR = z3.RealVal("1/1000")
+
+
 def must_accept(t, n):
-    return z3.And(is_sym_close(t), lam_min(t) >= -(P_CONST * z3.ToReal(n) * U * norm2(t)))
+    return z3.And(asym(t) <= P_CONST * z3.ToReal(n) * U * max_abs(t), lam_min(t) >= -(P_CONST * z3.ToReal(n) * U * norm2(t)))
 
 
 def must_reject(t, n):
     # (an empty 0x0 matrix has no spectrum: the eigenvalue clause needs n >= 1)
-    return z3.Or(z3.Not(is_sym_close(t)), z3.And(n >= 1, norm2(t) > 0, lam_min(t) < -(FAR * norm2(t))))
+    # (no listed property demands that an asymmetric matrix is refused: only the spectral disjunct - C14, negative noise)
+    return z3.And(n >= 1, norm2(t) > 0, lam_min(t) < -(FAR * norm2(t)))
 
 
 class AssertValidCovariance(Contract):
     """assert_valid_covariance(C, *, name, negative_tol):
-    ensures  returns normally if C is symmetric (allclose) and lam_min(C) >= -64 n u ||C||_2 ;
-             raises AssertionError if C is not symmetric or lam_min(C) < -1e-6 ||C||_2 ;
+    ensures  returns normally if max|C - C^T| <= 64 n u max|C| and lam_min(C) >= -64 n u ||C||_2 ;
+             raises AssertionError if lam_min(C) < -1e-6 ||C||_2 ;
              raises nothing but AssertionError."""
 
     key = "formak.python:assert_valid_covariance"
@@ -46,6 +52,7 @@ class AssertValidCovariance(Contract):
         P.assume(z3.And(n >= 0, n <= 1000000))
         C = SMat(z3.Const("C", Mat), shape=(SInt(n), SInt(n)), ident=object())
         P.define(eig_axioms(C.term), "D-eig: spectrum bounds (|lam_min| <= norm2, norm2 >= 0)")
+        P.define(entry_axioms(C.term), "D-entry: 0 <= max|C - C^T| <= 2 max|C|")
         return Call([C], {}, C=C, n=n)
 
     def post(self, I, call, outcome):
